@@ -31,9 +31,9 @@ type pkgInput struct {
 func makePkgInput(v int) *pkgInput {
 	k, dx, dy := int64(v%3+1), int64(37*v), int64(-11*v)
 	tr := func(s clipper.Paths64) clipper.Paths64 {
-		out := make(clipper.Paths64, len(s))
+		out := make(clipper.Paths64, len(s), len(s)+4) // spare capacity: an in-place append by the library would be shared scratch space
 		for i, p := range s {
-			out[i] = make(clipper.Path64, len(p))
+			out[i] = make(clipper.Path64, len(p), len(p)+4)
 			for j, q := range p {
 				out[i][j] = clipper.Point64{X: q.X*k + dx, Y: q.Y*k + dy}
 			}
@@ -41,9 +41,9 @@ func makePkgInput(v int) *pkgInput {
 		return out
 	}
 	toD := func(s clipper.Paths64, f float64) clipper.PathsD {
-		out := make(clipper.PathsD, len(s))
+		out := make(clipper.PathsD, len(s), len(s)+4)
 		for i, p := range s {
-			out[i] = make(clipper.PathD, len(p))
+			out[i] = make(clipper.PathD, len(p), len(p)+4)
 			for j, q := range p {
 				out[i][j] = clipper.PointD{X: float64(q.X)*f + 0.25*float64(v), Y: float64(q.Y)*f - 0.125*float64(v)}
 			}
